@@ -352,7 +352,7 @@ func runC06(c *Ctx) {
 
 // fieldLoadAddrOfLoad: v = *(&X.f) where X is an address (local struct); returns X, f.
 func fieldLoadAddrOfLoad(v ssa.Value) (ssa.Value, *types.Var, bool) {
-	u, ok := stripIface(v).(*ssa.UnOp)
+	u, ok := stripIface(under(v)).(*ssa.UnOp)
 	if !ok || u.Op != token.MUL {
 		return nil, nil, false
 	}
